@@ -93,7 +93,7 @@ func synthesizable(t reflect.Type) bool {
 	return false
 }
 
-var strPool = []string{"", "a", "X-Custom", "Content-Type", "Content-Length", "Connection", "close", "keep-alive", "text/plain", "application/json", "/path?q=1", "http://other.example/x?y=2#f", "k=v", "Cookie", "Set-Cookie", "k", "v", "Trailer", "X-T",
+var strPool = []string{"", "a", "X-Custom", "X-D1", "X-D2", "X-D3", "X-Dirty", "Content-Type", "Content-Length", "Connection", "close", "keep-alive", "text/plain", "application/json", "/path?q=1", "http://other.example/x?y=2#f", "k=v", "Cookie", "Set-Cookie", "k", "v", "Trailer", "X-T",
 	"Transfer-Encoding", "chunked", "100-continue", "Expect", "gzip", "Content-Encoding", "multipart/form-data; boundary=b", "GET", "HEAD", "POST", "Host", "evil.example", "Server", "Date", "Location", "7", "User-Agent", "Authorization", "Basic dTpw"}
 
 // genArg draws the description of one argument and returns a factory for it: every run of a
@@ -202,7 +202,7 @@ func genProgram(t *rapid.T) []call {
 	n := rapid.IntRange(1, 12).Draw(t, "nCalls")
 	var prog []call
 	for i := 0; i < n; i++ {
-		if rapid.IntRange(0, 7).Draw(t, "fieldMutator") == 0 {
+		if rapid.IntRange(0, 3).Draw(t, "fieldMutator") == 0 {
 			prog = append(prog, call{Target: "field", Method: rapid.SampledFrom(fieldMutatorNames).Draw(t, "field")})
 			continue
 		}
@@ -235,8 +235,20 @@ var fieldMutators = map[string]func(ctx *app.RequestContext){
 	"Keys[k]=v":                          func(ctx *app.RequestContext) { ctx.Keys = map[string]interface{}{"k": "v"} },
 	"Params=append":                      func(ctx *app.RequestContext) { ctx.Params = append(ctx.Params, ctx.Params...) },
 	"URI.DisablePathNormalizing=true":    func(ctx *app.RequestContext) { ctx.Request.URI().DisablePathNormalizing = true },
-	"Error(err)":                         func(ctx *app.RequestContext) { ctx.Error(errors.New("handler error")) },             //nolint:errcheck
-	"AbortWithError":                     func(ctx *app.RequestContext) { ctx.AbortWithError(500, errors.New("abort error")) }, //nolint:errcheck
+	// deleting an entry that is not the last one of a key/value list (headers, query, form, cookies)
+	"Request.Header.Del(X-D2)":      func(ctx *app.RequestContext) { ctx.Request.Header.Del("X-D2") },
+	"Request.Header.Del(X-D1,X-D3)": func(ctx *app.RequestContext) { ctx.Request.Header.Del("X-D1"); ctx.Request.Header.Del("X-D3") },
+	"Request.Header.DelCookie(dc)":  func(ctx *app.RequestContext) { ctx.Request.Header.Cookie("dd"); ctx.Request.Header.DelCookie("dc") },
+	"QueryArgs.Del(dr)":             func(ctx *app.RequestContext) { ctx.QueryArgs().Del("dr") },
+	"PostArgs.Del(g)":               func(ctx *app.RequestContext) { ctx.PostArgs().Del("g") },
+	"Response.Header.Set(R1..R4)+Del(R2)": func(ctx *app.RequestContext) {
+		for _, k := range []string{"X-R1", "X-R2", "X-R3", "X-R4"} {
+			ctx.Response.Header.Set(k, "response-value-"+k)
+		}
+		ctx.Response.Header.Del("X-R2")
+	},
+	"Error(err)":     func(ctx *app.RequestContext) { ctx.Error(errors.New("handler error")) },             //nolint:errcheck
+	"AbortWithError": func(ctx *app.RequestContext) { ctx.AbortWithError(500, errors.New("abort error")) }, //nolint:errcheck
 }
 
 var fieldMutatorNames = func() []string {
@@ -458,7 +470,7 @@ func newRig(cfgs ...int) *rig {
 }
 
 var dirtyReqs = []string{
-	"POST /dirty/v1/a/b?dq=secret1&dq=secret2&dr=secret3&ds=secret4 HTTP/1.1\r\nHost: dirty.example\r\nContent-Type: application/x-www-form-urlencoded\r\nCookie: dc=1; dd=2\r\nX-Dirty: yes\r\nUser-Agent: dirty-agent\r\nContent-Length: 32\r\n\r\nf=secretf&g=secretg&h=secreth&i=",
+	"POST /dirty/v1/a/b?dq=secret1&dq=secret2&dr=secret3&ds=secret4 HTTP/1.1\r\nHost: dirty.example\r\nContent-Type: application/x-www-form-urlencoded\r\nCookie: dc=1; dd=2\r\nX-Dirty: yes\r\nX-D1: d-one\r\nX-D2: d-two\r\nX-D3: d-three\r\nX-D4: d-four\r\nUser-Agent: dirty-agent\r\nContent-Length: 32\r\n\r\nf=secretf&g=secretg&h=secreth&i=",
 	"HEAD /dirty/v2/h HTTP/1.1\r\nHost: dirty.example\r\nX-Dirty: head\r\n\r\n",
 	"PUT /dirty/v3/c HTTP/1.1\r\nHost: dirty.example\r\nTransfer-Encoding: chunked\r\nTrailer: X-Tr\r\nContent-Type: multipart/form-data; boundary=b\r\n\r\n3b\r\n--b\r\nContent-Disposition: form-data; name=\"a\"\r\n\r\nv\r\n--b--\r\n\r\n0\r\nX-Tr: tv\r\n\r\n",
 	"POST /dirty/v4/j HTTP/1.1\r\nHost: dirty.example\r\nContent-Type: application/json\r\nExpect: 100-continue\r\nContent-Length: 7\r\n\r\n{\"a\":1}",
@@ -467,6 +479,8 @@ var probeReqs = []string{
 	"GET /x/../probe?pq=1 HTTP/1.1\r\nHost: probe.example\r\nX-Probe: 1\r\nCookie: pc=1; pd=2\r\n\r\n",
 	"POST /not/./a//route?pq=1 HTTP/1.1\r\nHost: probe.example\r\nX-Probe: 1\r\nCookie: pc=3\r\nContent-Type: application/x-www-form-urlencoded\r\nContent-Length: 9\r\n\r\npf=1&pg=2",
 	"PUT /probe HTTP/1.1\r\nHost: probe.example\r\nContent-Type: multipart/form-data; boundary=pb\r\nContent-Length: 62\r\n\r\n--pb\r\nContent-Disposition: form-data; name=\"pm\"\r\n\r\nv\r\n--pb--\r\n",
+	// many application headers: every key/value slot of a recycled header list is used again
+	"GET /probe?pq=1 HTTP/1.1\r\nHost: probe.example\r\nX-Probe: 1\r\nX-P1: one\r\nX-P2: two\r\nX-P3: three\r\nX-P4: four\r\nX-P5: five\r\nX-P6: six\r\nX-P7: seven\r\nX-P8: eight\r\nCookie: pc=1\r\n\r\n",
 	// keys without '=' and empty values in every position: a recycled key/value slot must not lend them its old value
 	"POST /probe?flag&pq=&other&last HTTP/1.1\r\nHost: probe.example\r\nX-Probe: 1\r\nCookie: bare; pc=; pd\r\nX-Empty:\r\nContent-Type: application/x-www-form-urlencoded\r\nContent-Length: 12\r\n\r\npf&pg=&ph&pi",
 }
